@@ -140,7 +140,7 @@ def run_proc(cmd, lines, env=None, timeout=1800):
 
 # ---------------------------------------------------------------- the property oracle on real output
 def parse_dump(line):
-    # D cnt=N max=M | h/id/name/st/idx ... | find k>h ... | kw a b c | by x x x; ...
+    # D cnt=N max=M | h/id/name/st/idx ... | find k>h ... | kw a b c | none 0- ... | by x x x; ... | above -- -- --
     parts = [p.strip() for p in line[2:].split("|")]
     head = dict(kv.split("=") for kv in parts[0].split())
     nodes = []
@@ -152,9 +152,10 @@ def parse_dump(line):
         k, h = t.split(">")
         find[int(k)] = h
     kw = [int(x) for x in parts[3].split()[1:]]
-    by = [g.split() for g in parts[4][2:].strip().split(";") if g.strip() != ""]
-    above = parts[5].split()[1:] if len(parts) > 5 else []
-    return dict(cnt=int(head["cnt"]), max=int(head["max"]), nodes=nodes, find=find, kw=kw, by=by, above=above)
+    none = parts[4].split()[1:]
+    by = [g.split() for g in parts[5][2:].strip().split(";") if g.strip() != ""]
+    above = parts[6].split()[1:] if len(parts) > 6 else []
+    return dict(cnt=int(head["cnt"]), max=int(head["max"]), nodes=nodes, find=find, kw=kw, by=by, above=above, none=none)
 
 
 class Oracle:
@@ -229,6 +230,9 @@ class Oracle:
         if any("X" in a for a in d["above"]):
             return (f"look-up by index at/above the count ({d['cnt']}) answers an instance or node "
                     f"(GetApplication_instance/GetMgrNode at count+0..2: {d['above']}): there is no such live instance")
+        if any(x != "0-" for x in d["none"]):
+            return (f"look-up by a keyword that names no entity (a proper prefix of a name, a name with a suffix, the empty "
+                    f"keyword) counts or returns instances: {d['none']} (count, first match from 0)")
         ids = [n["id"] for n in d["nodes"]]
         if len(set(ids)) != len(ids):
             return f"two live instances carry the same id: {ids}"
